@@ -53,6 +53,10 @@ def main(tier):
     nsim = 60 if quick else 1500
     sims, sim = layerb.generate_behaviours("PyDRexC08", "PyDRexC08Sim", nsim, 14, SEED + 8)
     chk.add_tlc("PyDRexC08(simulate, MaxUpd=3)", sim, f"{nsim} random interleavings, 3 flows, 3 updates per mineral")
+    nflt = 40 if quick else 800
+    flts, fsim = layerb.generate_behaviours("PyDRexC08", "PyDRexC08FaultSim", nflt, 16, SEED + 9)
+    chk.add_tlc("PyDRexC08(simulate, client faults)", fsim, f"{nflt} random interleavings with failing single / bulk updates in between (UpdateFaulted, UpdateAllFaulted)")
+    sims = sims + flts
     pd = quiet_pydrex()
     events, comp = layerb.run_behaviours(chk, "C08", behs + sims, fcheck=False)
     chk.cov["bound_terms"] = dict(orientations=len(comp.omap), fractions=len(comp.fmap))
